@@ -29,6 +29,10 @@ theorem upperhex_safe : ∀ c : UInt8, (upperhex (c >>> 4) ≠ 38 ∧ upperhex (
     (upperhex (c &&& 15) ≠ 38 ∧ upperhex (c &&& 15) ≠ 61 ∧ upperhex (c &&& 15) ≠ 59) :=
   forall_byte (by decide)
 
+set_option maxRecDepth 100000 in
+theorem upperhex_valid : ∀ c : UInt8, validEncodedByte (upperhex (c >>> 4)) = true ∧ validEncodedByte (upperhex (c &&& 15)) = true :=
+  forall_byte (by decide)
+
 theorem slash_not_escaped : shouldEscape 47 .path = false := by decide
 
 /-! ## unescape ∘ escape -/
